@@ -36,6 +36,38 @@ pub fn run(r: &mut Report) {
         let want = if junk_first { "Err" } else { "Ok" };
         r.case("two-signature-entries-sharing-the-prefix", json!({"junk_entry_first": junk_first, "repetitions": reps}), &format!("{} on every run", want), format!("{:?}", seen), seen.len() == 1 && seen.contains(want));
     }
+    // one key MATERIAL listed under several identifiers (the identifier covers the hash-algorithm list, so the same Ed25519 key
+    // imported from PKCS#8 and from its raw pair has two ids), each id with its own, different link: still one outcome
+    {
+        let owner = key(1);
+        let mut variants: Vec<in_toto::crypto::PrivateKey> = vec![];
+        for i in [2usize, 3] {
+            let pk8 = std::fs::read(format!("/repo/tests/ed25519/ed25519-{}.pk8.der", i)).unwrap();
+            let raw: Vec<u8> = pk8[16..48].iter().chain(pk8[pk8.len() - 32..].iter()).cloned().collect();
+            variants.push(in_toto::crypto::PrivateKey::from_pkcs8(&pk8, in_toto::crypto::SignatureScheme::Ed25519).unwrap());
+            variants.push(in_toto::crypto::PrivateKey::from_ed25519(&raw).unwrap());
+        }
+        let distinct_ids: BTreeSet<String> = variants.iter().map(|k| serde_json::to_value(k.key_id()).unwrap().to_string()).collect();
+        for (id, rules) in [("summary", allow_all()), ("verdict", vec![ArtifactRule::Create(VirtualTargetPath::new("p1".into()).unwrap()), ArtifactRule::Disallow(VirtualTargetPath::new("*".into()).unwrap())])] {
+            for subset in [vec![0usize, 1], vec![2, 3], vec![0, 1, 2, 3]] {
+                let d = tmpdir();
+                let refs: Vec<&in_toto::crypto::PrivateKey> = subset.iter().map(|i| &variants[*i]).collect();
+                for (j, k) in refs.iter().enumerate() {
+                    let prod = format!("p{}", j);
+                    write_link(d.path(), "a", k.key_id(), &signed_link(&link("a", &[], &[(prod.as_str(), j as u8)]), &[k]));
+                }
+                let lay = signed_layout(&layout(vec![step("a", 1, &refs, allow_all(), rules.clone())], vec![], &refs, 30), &[&owner]);
+                let mut seen = BTreeSet::new();
+                let reps = crate::util::scale(40, 200);
+                for _ in 0..reps {
+                    let res = no_panic(|| in_toto_verify(&lay, owner_keys(&[&owner]), d.path().to_str().unwrap(), None));
+                    seen.insert(match &res { Ok(v) => verdict(v), Err(p) => format!("panic: {}", p) });
+                }
+                r.case(&format!("one-key-material-under-several-ids-{}", id), json!({"ids_listed": subset.len(), "distinct_ids_overall": distinct_ids.len(), "repetitions": reps}),
+                       "one outcome", format!("{} distinct outcomes: {:?}", seen.len(), seen.iter().map(|x| x.chars().take(160).collect::<String>()).collect::<Vec<_>>()), seen.len() == 1 && distinct_ids.len() == 4);
+            }
+        }
+    }
     let owner = key(1);
     let ks = [key(2), key(3), key(4), key(5)];
     // threshold 1, four valid authorised links that differ in their products
